@@ -255,7 +255,27 @@ def run(prog, rep):
     ok3 = sizes == want and guardsz == want and None not in want.values()
     rep.ob("C17.3", gs, "size", ok3, "get_native_size and to_native's length guard both use sizeof (sockaddr_in)=%s / sizeof (sockaddr_in6)=%s" % (want[INET], want[INET6]) if ok3 else
            "native sizes disagree: get_native_size %s, to_native guard %s, structures %s" % (sizes, guardsz, want), gs.loc[0])
-    rep.floor("C17.3", 1)
+    # ... and new_from_native accepts every length from the structure size upwards: on its success paths the length is only
+    # bounded from below (callers hand in sizeof (struct sockaddr_storage), to_native accepts any destlen >= the size - an exact-length
+    # test makes the two directions disagree and every storage-sized IPv6 address is rejected)
+    lenp_in = fin.param_names()[1] if len(fin.param_names()) > 1 else None
+    upper = []
+    nsucc = [0]
+
+    def s5(st, b, i, stmt):
+        if stmt["k"] == "ret" and stmt.get("e") is not None and cv(stmt["e"]) != 0:
+            nsucc[0] += 1
+            for (fk, fop, fv) in st:
+                if fk == lenp_in and fop in ("==", "<", "<="):
+                    upper.append((line(stmt), fop, fv))
+        return [guards.transfer(st, stmt)]
+    Flow(fin, [guards.EMPTY], s5, lambda st, b, to, on: guards.edge_assume(st, b, on)).run()
+    oku = bool(nsucc[0]) and not upper and lenp_in is not None
+    rep.ob("C17.3", fin, "length:lower-bound-only", oku, "new_from_native accepts every length >= the structure size (%d success path(s), no upper bound on the length)" % nsucc[0] if oku else
+           ("line %d: a native address is accepted only with length %s %s: a longer buffer holding the same address (sizeof (struct sockaddr_storage), as the socket layer and "
+            "to_native's callers use) is rejected, so to_native followed by new_from_native no longer reproduces the address" % (upper[0][0], upper[0][1], upper[0][2]) if upper else
+            "no success path found in new_from_native"), fin.loc[0])
+    rep.floor("C17.3", 2)
 
     # ---- C17.4 ---------------------------------------------------------------------------------
     nw = u.fn("p_socket_address_new")
@@ -414,6 +434,8 @@ SELFTEST = [
          old="\t\tret->port   = p_ntohs (((struct sockaddr_in *) native)->sin_port);\n\t\treturn ret;", new="\t\tret->port   = ((struct sockaddr_in *) native)->sin_port;\n\t\treturn ret;"),
     dict(id="native-size-swapped", file="src/psocketaddress.c", expect="C17.3",
          old="\tif (addr->family == P_SOCKET_FAMILY_INET)\n\t\treturn sizeof (struct sockaddr_in);", new="\tif (addr->family == P_SOCKET_FAMILY_INET)\n\t\treturn sizeof (struct sockaddr_in6);"),
+    dict(id="from-native-exact-length-only", file="src/psocketaddress.c", expect="C17.3",
+         old="\t\tif (len < sizeof (struct sockaddr_in6)) {", new="\t\tif (len != sizeof (struct sockaddr_in6)) {"),
     dict(id="numerichost-dropped", file="src/psocketaddress.c", expect="C17.4",
          old="\t\thints.ai_flags    = AI_NUMERICHOST;", new="\t\thints.ai_flags    = 0;"),
     dict(id="addrinfo-leak", file="src/psocketaddress.c", expect="C17.4",
